@@ -130,14 +130,21 @@ def build_net(sc: Dict[str, Any]):
                 x = getattr(self, nm)(x)
             return x
 
-    g = torch.Generator().manual_seed(sc["wseed"])
     net = SeqNet(sc)
-    gain = float(sc.get("gain", 1.0))
+    init_generic(net, sc["wseed"], float(sc.get("gain", 1.0)))
+    net.eval()
+    return net
+
+
+def init_generic(net, wseed: int, gain: float = 1.0) -> None:
+    """generic (random, non-degenerate) weights, biases and BN statistics; every channel with its own magnitude"""
+    import torch
+    import torch.nn as nn
+    g = torch.Generator().manual_seed(wseed)
     with torch.no_grad():
         for nm, m in net.named_modules():
             if isinstance(m, (nn.Conv2d, nn.Linear)):
                 fan = m.weight[0].numel()
-                # generic weights, every channel with its own magnitude (per-channel scales differ)
                 mag = (0.3 + torch.rand(m.weight.shape[0], generator=g)) / math.sqrt(fan)
                 wgt = (torch.rand(m.weight.shape, generator=g) * 2 - 1)
                 m.weight.copy_(wgt * mag.view(-1, *([1] * (wgt.dim() - 1))) * 2.0 * gain)
@@ -148,8 +155,112 @@ def build_net(sc: Dict[str, Any]):
                 m.bias.copy_((torch.rand(m.bias.shape, generator=g) * 2 - 1) * 0.3)
                 m.running_mean.copy_((torch.rand(m.bias.shape, generator=g) * 2 - 1) * 0.2)
                 m.running_var.copy_(0.5 + torch.rand(m.bias.shape, generator=g))
+
+
+# ------------------------------------------------------------------------------------------------
+# nested containers (module paths that differ from the fx node names)
+# ------------------------------------------------------------------------------------------------
+NESTS = ("flat", "seq", "blocks", "dict", "alias")
+
+
+def build_nested(model: Dict[str, Any]):
+    """model = {"nest": "seq"|"blocks"|"dict"|"alias", "c0", "h", "w", "wb", "ab", "wseed", "gain"}.
+       seq    : the ROOT is an nn.Sequential (module paths '0', '2', ...; fx node names '_0', '_2', ...)
+       blocks : blocks inside an nn.Sequential inside the model, inner nn.Sequential bodies, depthwise-separable convs,
+                a Sequential head with two Linear layers ('features.0.body.0', 'features.2.dw', 'head.1', ...)
+       dict   : nn.ModuleDict with a word key and a numeric key, nn.ModuleList of Linear layers ('layers.3', 'fcs.0')
+       alias  : every layer is reachable through two attribute paths of the model"""
+    import torch
+    import torch.nn as nn
+    c0, h, w = model["c0"], model["h"], model["w"]
+    kind = model["nest"]
+
+    class Block(nn.Module):
+        def __init__(self, cin, cout):
+            super().__init__()
+            self.body = nn.Sequential(nn.Conv2d(cin, cout, 3, padding=1), nn.BatchNorm2d(cout), nn.ReLU())
+            self.dw = nn.Conv2d(cout, cout, 3, padding=1, groups=cout)
+            self.act = nn.ReLU()
+            self.pw = nn.Conv2d(cout, cout, 1)
+
+        def forward(self, x):
+            return torch.relu(self.pw(self.act(self.dw(self.body(x)))))
+
+    class Blocks(nn.Module):
+        def __init__(self):
+            super().__init__()
+            self.features = nn.Sequential(Block(c0, 3), nn.MaxPool2d(2), Block(3, 4))
+            self.head = nn.Sequential(nn.Flatten(1), nn.Linear(4 * (h // 2) * (w // 2), 5), nn.ReLU(), nn.Linear(5, 3))
+
+        def forward(self, x):
+            return self.head(self.features(x))
+
+    class DictNet(nn.Module):
+        def __init__(self):
+            super().__init__()
+            self.layers = nn.ModuleDict({"stem": nn.Conv2d(c0, 3, 3, padding=1), "3": nn.Conv2d(3, 4, 3, padding=1)})
+            self.fcs = nn.ModuleList([nn.Linear(4 * h * w, 5), nn.Linear(5, 3)])
+
+        def forward(self, x):
+            x = torch.relu(self.layers["stem"](x))
+            x = torch.relu(self.layers["3"](x))
+            x = torch.flatten(x, 1)
+            return self.fcs[1](torch.relu(self.fcs[0](x)))
+
+    class Alias(nn.Module):
+        def __init__(self):
+            super().__init__()
+            self.conv_a = nn.Conv2d(c0, 3, 3, padding=1)
+            self.conv_b = self.conv_a
+            self.fc_first = nn.Linear(3 * h * w, 4)
+            self.zz_fc = self.fc_first
+            self.out = nn.Linear(4, 3)
+            self.aa_out = self.out
+
+        def forward(self, x):
+            x = torch.flatten(torch.relu(self.conv_b(x)), 1)
+            return self.aa_out(torch.relu(self.zz_fc(x)))
+
+    if kind == "seq":
+        net = nn.Sequential(nn.Conv2d(c0, 3, 3, padding=1), nn.ReLU(), nn.Conv2d(3, 4, 1), nn.ReLU(), nn.Flatten(1),
+                            nn.Linear(4 * h * w, 4), nn.ReLU(), nn.Linear(4, 3))
+    elif kind == "blocks":
+        net = Blocks()
+    elif kind == "dict":
+        net = DictNet()
+    elif kind == "alias":
+        net = Alias()
+    else:
+        raise ValueError(kind)
+    init_generic(net, model["wseed"], float(model.get("gain", 1.0)))
     net.eval()
     return net
+
+
+def nested_qinfo(model: Dict[str, Any]):
+    from plinio.methods.mps.quant.quantizers import PACTAct, MinMaxWeight, QuantizerBias
+    return {
+        "layer_default": {
+            "output": {"quantizer": PACTAct, "search_precision": (model["ab"],), "kwargs": {"init_clip_val": 2.5}},
+            "weight": {"quantizer": MinMaxWeight, "search_precision": (model["wb"],), "kwargs": {}},
+            "bias": {"quantizer": QuantizerBias, "kwargs": {"precision": 32}},
+        },
+        "input_default": {"quantizer": PACTAct, "search_precision": (model["ab"],), "kwargs": {"init_clip_val": 1}},
+    }
+
+
+def spec_of_module(net) -> List[Dict[str, Any]]:
+    """conv / linear layers of a plain torch model in the format of tr["spec"] (names = module paths)"""
+    import torch.nn as nn
+    out = []
+    for nm, m in net.named_modules():
+        if isinstance(m, nn.Conv2d):
+            out.append({"op": "conv", "name": nm, "hasbias": True if m.bias is not None else False, "k": list(m.kernel_size),
+                        "p": list(m.padding), "d": list(m.dilation), "s": int(m.stride[0]), "dws": m.groups > 1})
+        elif isinstance(m, nn.Linear):
+            out.append({"op": "lin", "name": nm, "hasbias": m.bias is not None, "k": [1, 1], "p": [0, 0], "d": [1, 1],
+                        "s": 1, "dws": False})
+    return out
 
 
 def make_qinfo(sc: Dict[str, Any]):
@@ -206,30 +317,40 @@ def _pact_top(q) -> int:
         return int(qq(torch.tensor([float(qq.clip_val.data[0]) * 4.0 + 1.0])).item())
 
 
-def observe_net(sc: Dict[str, Any]) -> Dict[str, Any]:
-    import torch
-    import torch.nn.functional as F
-    from plinio.methods.mps import MPS, MPSType
-    from plinio.methods.mps.quant.backends import Backend, integerize_arch
-    from plinio.methods.mps.quant.quantizers import DummyQuantizer
-    import plinio.methods.mps.quant.nn as qnn
+BACKEND_LAYERS = ("MATCHConv2d", "MATCHLinear", "MAUPITIConv2d", "MAUPITILinear")
 
-    backend = sc["backend"]
-    nsamp = int(sc.get("nsamp", 6))
-    tr: Dict[str, Any] = {"kind": "net", "backend": backend, "scale_bit": 16 if backend == "maupiti" else sc["scale_bit"],
-                          "shift_pos": 32 if backend == "maupiti" else sc["shift_pos"],
-                          "stage": "", "exc": "", "msg": "", "spec": [], "layers": [], "final": {},
-                          "shared_flip": False}
-    # static description of the requested conv/linear layers (signatures of F12/F13/F14 are scenario predicates)
+
+def _new_trace(backend: str, scale_bit: int, shift_pos: int, spec: List[Dict[str, Any]]) -> Dict[str, Any]:
+    return {"kind": "net", "backend": backend, "scale_bit": scale_bit, "shift_pos": shift_pos,
+            "stage": "", "exc": "", "msg": "", "spec": spec, "layers": [], "final": {},
+            "census": {"quant_in": 0, "backend_called": 0, "quant_called": 0, "quant_modules": 0}, "kw_same": True}
+
+
+def flat_spec(sc: Dict[str, Any]) -> List[Dict[str, Any]]:
+    """static description of the requested conv/linear layers (signatures of F12/F13/F14 are scenario predicates)"""
+    spec = []
     for i, L in enumerate(sc["layers"]):
         if L["op"] == "conv":
-            tr["spec"].append({"op": "conv", "name": lname(i), "hasbias": bool(L["bias"] or L["bn"]),
-                               "k": list(L["k"]), "p": list(L["p"]), "d": list(L["d"]), "s": L["s"],
-                               "dws": bool(L["dws"])})
+            spec.append({"op": "conv", "name": lname(i), "hasbias": bool(L["bias"] or L["bn"]),
+                         "k": list(L["k"]), "p": list(L["p"]), "d": list(L["d"]), "s": L["s"], "dws": bool(L["dws"])})
         elif L["op"] == "lin":
-            tr["spec"].append({"op": "lin", "name": lname(i), "hasbias": bool(L["bias"] or L["bn"]),
-                               "k": [1, 1], "p": [0, 0], "d": [1, 1], "s": 1, "dws": False})
+            spec.append({"op": "lin", "name": lname(i), "hasbias": bool(L["bias"] or L["bn"]),
+                         "k": [1, 1], "p": [0, 0], "d": [1, 1], "s": 1, "dws": False})
+    return spec
 
+
+def snapshot(model) -> Dict[str, Any]:
+    return {k: v.detach().clone() for k, v in model.state_dict().items()}
+
+
+def observe_net(sc: Dict[str, Any]) -> Dict[str, Any]:
+    import torch
+    from plinio.methods.mps import MPS, MPSType
+    from plinio.methods.mps.quant.backends import Backend, integerize_arch
+
+    backend = sc["backend"]
+    tr = _new_trace(backend, 16 if backend == "maupiti" else sc["scale_bit"], 32 if backend == "maupiti" else sc["shift_pos"],
+                    flat_spec(sc))
     torch.manual_seed(sc["xseed"])
     net = build_net(sc)
     shape = (sc["c0"], sc["h"], sc["w"])
@@ -241,19 +362,54 @@ def observe_net(sc: Dict[str, Any]) -> Dict[str, Any]:
     except Exception as e:                                   # not the object of C14 (the driver treats it as machinery)
         tr.update(stage="mps", exc=_exc_name(e), msg=_msg(e))
         return tr
-    # F22 (observation only): export() shares quantiser objects with the NAS model, integerize_arch flips their flags
-    fq = copy.deepcopy(fake)
+    # F22 (observation only): export() shares quantiser objects with the NAS model, integerize_arch flips their flags;
+    # everything below works on deep copies
     kwargs = {} if backend == "maupiti" else {"scale_bit": sc["scale_bit"], "shift_pos": sc["shift_pos"]}
+    kw0 = dict(kwargs)
     bk = Backend.MATCH if backend == "match" else Backend.MAUPITI
     try:
         integ = integerize_arch(copy.deepcopy(fake), bk, backend_kwargs=kwargs)
     except Exception as e:
         tr.update(stage="integerize", exc=_exc_name(e), msg=_msg(e))
         return tr
-
+    tr["kw_same"] = kwargs == kw0
     g = torch.Generator().manual_seed(sc["xseed"])
     x = torch.rand((sc["batch"],) + shape, generator=g) * 1.3 - 0.15          # exercises both clamps of the input
-    in_q = fq.get_submodule("x_input_quantizer").out_quantizer
+    return observe_integer(tr, copy.deepcopy(fake), integ, x, random.Random(sc["xseed"] * 7919 + 13),
+                           int(sc.get("nsamp", 6)), [snapshot(fake)])
+
+
+def observe_integer(tr: Dict[str, Any], fq, integ, x, rng: random.Random, nsamp: int,
+                    versions: List[Dict[str, Any]]) -> Dict[str, Any]:
+    """Compare the integer network `integ` with the fake-quantised model `fq` (a private copy) it was made from.
+    `versions` = state_dict snapshots of the weight versions of the model's history, the last one being current."""
+    import torch
+    import torch.nn.functional as F
+    from plinio.methods.mps.quant.quantizers import DummyQuantizer
+    import plinio.methods.mps.quant.nn as qnn
+
+    backend = tr["backend"]
+    quant_types = (qnn.QuantConv2d, qnn.QuantLinear) + ((qnn.QuantConv1d,) if hasattr(qnn, "QuantConv1d") else ())
+    # ---- structural census: which module types the result still CALLS / contains -------------------------
+    fmods = dict(fq.named_modules())
+    names = [str(n.target) for n in fq.graph.nodes if n.op == "call_module" and isinstance(fmods.get(str(n.target)), quant_types)]
+    called = [integ.get_submodule(str(n.target)) for n in integ.graph.nodes if n.op == "call_module"]
+    int_layers = {str(n.target): integ.get_submodule(str(n.target)) for n in integ.graph.nodes
+                  if n.op == "call_module" and type(integ.get_submodule(str(n.target))).__name__ in BACKEND_LAYERS}
+    tr["census"] = {"quant_in": len(names),
+                    "backend_called": sum(1 for m in called if type(m).__name__ in BACKEND_LAYERS),
+                    "quant_called": sum(1 for m in called if isinstance(m, quant_types)),
+                    "quant_modules": sum(1 for _, m in integ.named_modules() if isinstance(m, quant_types))}
+    fake_layers = {nm: fmods[nm] for nm in names}
+    if sorted(names) != sorted(int_layers) or sorted(names) != sorted(s["name"] for s in tr["spec"]):
+        tr.update(stage="census", msg=_msg(ValueError(f"integer layers {sorted(int_layers)} for quant layers {sorted(names)}")))
+        return tr
+    names = [s["name"] for s in tr["spec"]]
+
+    in_qs = [m for m in fq.modules() if isinstance(m, qnn.QuantIdentity)]
+    if len(in_qs) != 1:
+        raise ValueError("expected exactly one input quantiser")
+    in_q = in_qs[0].out_quantizer
     in_bits = int(in_q.precision)
     with torch.no_grad():
         if backend == "match":
@@ -262,10 +418,6 @@ def observe_net(sc: Dict[str, Any]) -> Dict[str, Any]:
             iq = copy.deepcopy(in_q)
             iq.dequantize = False
             x_int = iq(x) - 2 ** (in_bits - 1)
-
-    int_layers = {n: m for n, m in integ.named_modules() if type(m).__name__ in
-                  ("MATCHConv2d", "MATCHLinear", "MAUPITIConv2d", "MAUPITILinear")}
-    fake_layers = {n: m for n, m in fq.named_modules() if isinstance(m, (qnn.QuantConv2d, qnn.QuantLinear))}
     cap_io: Dict[str, Any] = {}
     hooks = []
     for n, m in int_layers.items():
@@ -283,11 +435,6 @@ def observe_net(sc: Dict[str, Any]) -> Dict[str, Any]:
         for h in hooks:
             h.remove()
 
-    rng = random.Random(sc["xseed"] * 7919 + 13)
-    names = [s["name"] for s in tr["spec"]]
-    if sorted(names) != sorted(int_layers) or sorted(names) != sorted(fake_layers):
-        tr.update(stage="match", exc="LayerSetMismatch", msg=f"{sorted(int_layers)} vs {names}")
-        return tr
     for nm in names:
         il, fl = int_layers[nm], fake_layers[nm]
         xin, yout = cap_io[nm]
@@ -300,7 +447,26 @@ def observe_net(sc: Dict[str, Any]) -> Dict[str, Any]:
         lo_out = (-(2 ** (ob - 1)) if backend == "maupiti" else 0) if not last else 0
         hi_out = lo_out + 2 ** ob - 1 if not last else 0
         rec: Dict[str, Any] = {"name": nm, "conv": isconv, "last": last, "ib": ib, "ob": ob, "wb": wb,
-                               "hasbias": fl.bias is not None, "lo_in": lo_in, "lo": lo_out, "hi": hi_out}
+                               "hasbias": fl.bias is not None, "lo_in": lo_in, "lo": lo_out, "hi": hi_out,
+                               "used_sb": int(getattr(il, "scale_bit", 16)), "used_sp": int(getattr(il, "shift_pos", 32))}
+        # which weights version do the stored weight scale s_w and the integer weights belong to?  (reference values:
+        # the layer's own weight quantiser run on the snapshot of every version)
+        cur = len(versions) - 1
+        sw_ver, wint_ver = -1, -1
+        with torch.no_grad():
+            for v in [cur] + list(range(cur)):
+                wv_ = versions[v].get(nm + ".weight")
+                if wv_ is None:
+                    continue
+                q = copy.deepcopy(fl.w_quantizer)
+                q.dequantize = False
+                wi = q(wv_)
+                sref = q.scale
+                if sw_ver < 0 and tuple(il.s_w.shape) == tuple(sref.shape) and torch.equal(il.s_w, sref):
+                    sw_ver = v
+                if wint_ver < 0 and (tuple(il.weight.shape) != tuple(wi.shape) or torch.equal(il.weight.detach(), wi)):
+                    wint_ver = v            # (a MATCH kernel padded for dilation has another shape: not compared)
+        rec["sw_ver"], rec["wint_ver"] = sw_ver, wint_ver
         with torch.no_grad():
             # ---- stored tensors: integer-ness and ranges -------------------------------------------
             w = il.weight.detach()
@@ -660,6 +826,121 @@ def run_approx(sc: Dict[str, Any]) -> Dict[str, Any]:
 
 
 # ------------------------------------------------------------------------------------------------
+# histories between export() and integerize_arch (IntegerizeLife)
+# ------------------------------------------------------------------------------------------------
+_FAKE_CACHE: Dict[str, Any] = {}
+
+
+def _canon(x: Any) -> str:
+    import json
+    return json.dumps(x, sort_keys=True, default=str)
+
+
+def get_fake(model: Dict[str, Any]):
+    """(deep copy of the exported fake-quantised model, spec, input shape) of a model description; built once per process
+    (the driver pre-builds in the parent, the per-scenario child processes inherit the cache)."""
+    from plinio.methods.mps import MPS, MPSType
+    k = _canon(model)
+    if k not in _FAKE_CACHE:
+        shape = (model["c0"], model["h"], model["w"])
+        if model.get("nest", "flat") == "flat":
+            net, spec, qinfo = build_net(model), flat_spec(model), make_qinfo(model)
+        else:
+            net = build_nested(model)
+            spec, qinfo = spec_of_module(net), nested_qinfo(model)
+        mps = MPS(net, input_shape=shape, qinfo=qinfo, w_search_type=MPSType.PER_LAYER)
+        mps.eval()
+        fake = mps.export()               # ends with a forward of the exported model: statistics version = weights version
+        fake.eval()
+        _FAKE_CACHE[k] = (fake, spec, shape)
+    fake, spec, shape = _FAKE_CACHE[k]
+    return copy.deepcopy(fake), copy.deepcopy(spec), shape
+
+
+def apply_update(kind: str, fake, version: int) -> None:
+    """Make weights version `version` out of the current one, through a public route that does NOT run the model."""
+    import torch
+    import plinio.methods.mps.quant.nn as qnn
+    g = torch.Generator().manual_seed(7000 + version)
+    factor = 1.6 if version % 2 == 1 else 0.55
+    mods = dict(fake.named_modules())
+    names = [n for n, _ in fake.named_parameters()
+             if n.rsplit(".", 1)[-1] in ("weight", "bias") and isinstance(mods.get(n.rsplit(".", 1)[0]), (qnn.QuantConv2d, qnn.QuantLinear))]
+    params = dict(fake.named_parameters())
+
+    def noise(t):
+        return (torch.rand(t.shape, generator=g) * 2 - 1) * 0.1 * float(t.abs().max())
+    if kind == "load":                       # checkpoint -> load_state_dict
+        sd = {k: v.detach().clone() for k, v in fake.state_dict().items()}
+        for n in names:
+            sd[n] = sd[n] * factor + noise(sd[n])
+        fake.load_state_dict(sd)
+    elif kind == "step":                     # one optimizer step on given gradients
+        opt = torch.optim.SGD([params[n] for n in names], lr=1.0)
+        for n in names:
+            p = params[n]
+            p.grad = (p.detach() * (1.0 - factor) - noise(p.detach()))
+        opt.step()
+    elif kind == "inplace":                  # in-place edit of the parameters
+        with torch.no_grad():
+            for n in names:
+                p = params[n]
+                p.mul_(factor)
+                p.add_(noise(p))
+    else:
+        raise ValueError(kind)
+
+
+def run_life(sc: Dict[str, Any]) -> Dict[str, Any]:
+    """One history of IntegerizeLife on the real library.
+    sc = {"kind": "life", "model": {...}, "xseed": int, "nsamp": int,
+          "ev": [{"a": "fwd"} | {"a": "upd", "k": "load"|"step"|"inplace"} | {"a": "int", "backend": .., "sb": int, "sp": int}]}
+    (sb / sp = 0: the option is not passed; no option at all: integerize_arch is called without backend_kwargs)."""
+    import torch
+    from plinio.methods.mps.quant.backends import Backend, integerize_arch
+    model = sc["model"]
+    fake, spec, shape = get_fake(model)
+    g = torch.Generator().manual_seed(sc["xseed"])
+    x = torch.rand((2,) + shape, generator=g) * 1.3 - 0.15
+    versions = [snapshot(fake)]
+    out = {"kind": "life", "nest": model.get("nest", "flat"), "ev": []}
+    for i, e in enumerate(sc["ev"]):
+        if e["a"] == "fwd":
+            with torch.no_grad():
+                fake(x)
+            out["ev"].append({"a": "fwd"})
+        elif e["a"] == "upd":
+            apply_update(e["k"], fake, len(versions))
+            versions.append(snapshot(fake))
+            out["ev"].append({"a": "upd", "k": e["k"]})
+        elif e["a"] == "int":
+            backend = e["backend"]
+            kwargs = {}
+            if e["sb"]:
+                kwargs["scale_bit"] = e["sb"]
+            if e["sp"]:
+                kwargs["shift_pos"] = e["sp"]
+            kw0 = dict(kwargs)
+            tr = _new_trace(backend, 0, 0, copy.deepcopy(spec))       # TLC fills in the options this call must use
+            bk = Backend.MATCH if backend == "match" else Backend.MAUPITI
+            try:
+                if kwargs:
+                    integ = integerize_arch(copy.deepcopy(fake), bk, backend_kwargs=kwargs)
+                else:
+                    integ = integerize_arch(copy.deepcopy(fake), bk)
+            except Exception as ex:
+                tr.update(stage="integerize", exc=_exc_name(ex), msg=_msg(ex))
+            else:
+                observe_integer(tr, copy.deepcopy(fake), integ, x, random.Random(sc["xseed"] * 31 + i), int(sc.get("nsamp", 3)),
+                                versions)
+            tr["kw_same"] = kwargs == kw0
+            out["ev"].append({"a": "int", "backend": backend, "sb": e["sb"], "sp": e["sp"], "obs": tr})
+        else:
+            raise ValueError(e["a"])
+    return out
+
+
+# ------------------------------------------------------------------------------------------------
 # parallel execution
 # ------------------------------------------------------------------------------------------------
 def _init_worker():
@@ -678,6 +959,8 @@ def _run_one(sc):
             return run_tiny(sc)
         if sc["kind"] == "approx":
             return run_approx(sc)
+        if sc["kind"] == "life":
+            return run_life(sc)
         raise ValueError(sc["kind"])
     except Exception:       # a crash of the harness itself: never a verdict, always a machinery failure
         import json
@@ -699,3 +982,17 @@ def run_scenarios(scs: List[Dict[str, Any]], procs: int = 0) -> List[Dict[str, A
     ctx = mp.get_context("fork")
     with ProcessPoolExecutor(max_workers=procs, mp_context=ctx, initializer=_init_worker) as ex:
         return list(ex.map(_run_one, scs, chunksize=max(1, min(64, len(scs) // (procs * 8)))))
+
+
+def run_isolated(scs: List[Dict[str, Any]], procs: int = 0) -> List[Dict[str, Any]]:
+    """Like run_scenarios, but EVERY scenario runs in a process of its own, forked from this one: what a scenario does to
+    process-level state of the library (module globals, default tables) cannot reach another scenario, and a scenario
+    replayed alone behaves as it did in the batch.  The caller should not have converted anything itself before."""
+    import os
+    import multiprocessing as mp
+    if not scs:
+        return []
+    procs = procs or min(10, max(1, (os.cpu_count() or 4) - 4))
+    ctx = mp.get_context("fork")
+    with ctx.Pool(processes=min(procs, len(scs)), initializer=_init_worker, maxtasksperchild=1) as pool:
+        return pool.map(_run_one, scs, chunksize=1)
